@@ -1,7 +1,7 @@
 """C02 configuration for ./check (see lib/props.py)."""
 
 CFG = {
-    "modules": ["HumphreyModel.Props.C02"],
+    "modules": ["HumphreyModel.Props.C02", "HumphreyModel.Props.C02Faithful"],
     "rule": "requests generated from an AST (5 methods, origin-form target with optional query, 0..60 headers drawn "
             "from a small per-request name pool so that names repeat and interleave, random name case, optional "
             "whitespace after the colon, non-ASCII values, one Cookie and one X-Forwarded-For header with valid and "
@@ -22,9 +22,13 @@ CFG = {
     "level_text": "parse_segmentation_independent: for EVERY byte stream and any two segmentations the model of "
                   "Request::from_stream returns the same request/error/panic and leaves the same bytes unread "
                   "(proved by a simulation between the chunked BufReader model and the flat stream); lookup is "
-                  "case-insensitive; X-Forwarded-For rule proved. Faithfulness (parse(render r) = denote r) and the "
-                  "serialise/parse round trip are NOT yet Lean theorems: they are judged per case against an "
-                  "independent denotation by the correspondence run.",
+                  "case-insensitive; X-Forwarded-For rule proved. parse_render: every request generated from the "
+                  "well-formed-request AST (Spec/HttpReq.lean) parses, under every chunking, to exactly the request it "
+                  "denotes and consumes exactly its bytes; get_all_parsed (values and relative order of same-named fields); "
+                  "sorted_getAll (the stable sort keeps per-name order); roundtrip / parse_serialize_parse: serialising ANY "
+                  "request the parser returned and parsing again yields an equal request (same method, target, version, "
+                  "body, per-name value sequences, address, cookies), with no well-formedness hypothesis. The correspondence "
+                  "run additionally judges every case against an independent denotation.",
     "level_note": "Trusted: Lean kernel; Model/Http.lean + Model/IO.lean tied to request.rs/headers.rs/address.rs by the "
                   "differential run (sync parser; the tokio twin is not yet exercised).",
     "technique": "Lean 4 simulation proof (chunked reader vs flat stream) + differential correspondence with independent denotation",
